@@ -77,7 +77,7 @@ func (g *gen) id(p string) string { g.n++; return fmt.Sprintf("%s%d", p, g.n) }
 func Generate(r *rand.Rand) Program {
 	g := &gen{r: r}
 	np := 2 + r.Intn(4)
-	pats := []func(){g.pipeline, g.fanInOut, g.pingPong, g.semaphore, g.selectMerge, g.slots, g.closeBroadcast, g.mutexMap, g.generatorClosure, g.nestedSpawn, g.nativeGo, g.closeSentinel, g.nativeGo, g.selectSend, g.sharedFuncValues, g.deepGo, g.selectBreak}
+	pats := []func(){g.pipeline, g.fanInOut, g.pingPong, g.semaphore, g.selectMerge, g.slots, g.closeBroadcast, g.mutexMap, g.generatorClosure, g.nestedSpawn, g.nativeGo, g.closeSentinel, g.nativeGo, g.selectSend, g.sharedFuncValues, g.deepGo, g.selectBreak, g.selectSendTypes, g.goWithResults}
 	for i := 0; i < np; i++ {
 		pats[r.Intn(len(pats))]()
 	}
@@ -372,4 +372,44 @@ func (g *gen) selectBreak() {
 	fmt.Fprintf(&b, "\tsum, after := 0, 0\n\tfor i := 0; i < %d; i++ {\n\t\tselect {\n\t\tcase v := <-ch:\n\t\t\tif v%%3 == 1 {\n\t\t\t\tbreak\n\t\t\t}\n\t\t\tsum += v\n\t\tdefault:\n\t\t\tif i >= 0 {\n\t\t\t\tbreak\n\t\t\t}\n\t\t\tsum = -1\n\t\t}\n\t\tafter++\n\t}\n", k+2)
 	fmt.Fprintf(&b, "\tprintln(%q, sum, after)\n}", name)
 	g.add("select-break", name, b.String())
+}
+
+// selectSendTypes: the same goroutine executes selects whose send cases, at
+// the same case index, send values of different types of the same kind.
+func (g *gen) selectSendTypes() {
+	name := g.id("seltypes")
+	pairs := [][2][2]string{
+		{{"[]int", "[]int{1, 2}"}, {"[]string", "[]string{\"a\", \"b\", \"c\"}"}},
+		{{"map[string]int", "map[string]int{\"k\": 1}"}, {"map[int]bool", "map[int]bool{1: true, 2: false}"}},
+		{{"*int", "new(int)"}, {"*string", "new(string)"}},
+		{{"[2]int", "[2]int{3, 4}"}, {"[3]string", "[3]string{\"x\", \"y\", \"z\"}"}},
+		{{"func() int", "func() int { return 5 }"}, {"func(int) string", "func(int) string { return \"q\" }"}},
+		{{"chan int", "make(chan int, 4)"}, {"chan string", "make(chan string, 2)"}},
+		{{"interface{}", "7"}, {"error", "nil"}},
+	}
+	p := pairs[g.r.Intn(len(pairs))]
+	if g.r.Intn(2) == 0 {
+		p[0], p[1] = p[1], p[0]
+	}
+	var b strings.Builder
+	fmt.Fprintf(&b, "func %s() {\n\ta := make(chan %s, 2)\n\tb := make(chan %s, 2)\n\tother := make(chan int)\n\tn := 0\n", name, p[0][0], p[1][0])
+	fmt.Fprintf(&b, "\tfor i := 0; i < %d; i++ {\n", 1+g.r.Intn(2))
+	fmt.Fprintf(&b, "\t\tselect {\n\t\tcase a <- %s:\n\t\t\tn += 1\n\t\tcase <-other:\n\t\t\tn += 100\n\t\t}\n", p[0][1])
+	fmt.Fprintf(&b, "\t\tselect {\n\t\tcase b <- %s:\n\t\t\tn += 10\n\t\tcase <-other:\n\t\t\tn += 1000\n\t\t}\n", p[1][1])
+	b.WriteString("\t\t<-a\n\t\t<-b\n\t}\n")
+	fmt.Fprintf(&b, "\tprintln(%q, n, len(a), len(b))\n}", name)
+	g.add("select-send-types", name, b.String())
+}
+
+// goWithResults: go statements on functions, function values and closures
+// that have results (discarded) of the same kinds as their parameters.
+func (g *gen) goWithResults() {
+	name := g.id("gores")
+	k := 2 + g.r.Intn(5)
+	var b strings.Builder
+	fmt.Fprintf(&b, "func %sSq(ch chan int, x int, s string, f float64) (int, string, float64, chan int) {\n\tch <- x*x + len(s) + int(f)\n\treturn x, s, f, ch\n}\n\n", name)
+	fmt.Fprintf(&b, "func %s() {\n\tch := make(chan int%s)\n\tfv := %sSq\n\tcl := func(c chan int, a, b int) (int, int) {\n\t\tc <- a*10 + b\n\t\treturn a, b\n\t}\n", name, g.buf(), name)
+	fmt.Fprintf(&b, "\tfor i := 0; i < %d; i++ {\n\t\tgo %sSq(ch, i+3, \"ab\", 2.5)\n\t\tgo fv(ch, i, \"c\", 1.0)\n\t\tgo cl(ch, i, 7)\n\t}\n", k, name)
+	fmt.Fprintf(&b, "\tsum := 0\n\tfor i := 0; i < %d; i++ {\n\t\tsum += <-ch\n\t}\n\tprintln(%q, sum)\n}", 3*k, name)
+	g.add("go-with-results", name, b.String())
 }
